@@ -3,7 +3,7 @@
    what the library's sliceDimensions returned (None = raised): new dimension lengths (a new
    POINTS dimension, id = number of input dimensions, is appended) and per variable its dimension
    ids and C-order cells. *)
-From PNC Require Export Base.Util Base.ArrFlat Model.Slice.
+From PNC Require Export Base.Util Base.ArrFlat Model.Slice Gen.SliceDimSrc.
 Local Open Scope Z_scope.
 
 (* a cell = (stored value, masked?) ; a masked cell's stored value is compared only where the
@@ -19,6 +19,15 @@ Record case_t := Case {
   c_kws  : list (nat * sel);
   c_obs  : option (list nat * list ovar)
 }.
+
+(* string form slice_dim(f, 'dim,a[,b[,c]]'): the keyword list is DERIVED in Coq from the numbers by the
+   generated (tie T) argument bookkeeping; an argument list the code cannot unpack becomes a
+   selector that fails (step 0) *)
+Definition kws_of_args (k : nat) (args : list (option Z)) : list (nat * sel) :=
+  match sel_of_args args with
+  | Some s => [(k, s)]
+  | None => [(k, SSlice None None (Some 0))]
+  end.
 
 Definition natlist_eqb := list_eqb Nat.eqb.
 Definition cells_eqb := list_eqb cell_eqb.
